@@ -420,3 +420,30 @@ func scenVersions(s *Sim) {
 	}
 	s.Count("nontrivial", 1)
 }
+
+// capProduceVersions makes the brokers of a cluster advertise different
+// maximum Produce versions (a rolling upgrade): broker b advertises
+// caps[b % len(caps)] (0 = unchanged). kfake serves every version of its own
+// range, so the narrowed advertisement is honoured end to end.
+func capProduceVersions(s *Sim, caps []int16) {
+	s.Mutate = func(c *Conn, ri *reqInfo, data []byte) ([][]byte, bool) {
+		if ri.key != 18 || len(caps) == 0 {
+			return nil, false
+		}
+		cap := caps[int(c.Broker)%len(caps)]
+		if cap <= 0 {
+			return nil, false
+		}
+		resp, ok := decodeResp(18, ri.ver, data).(*kmsg.ApiVersionsResponse)
+		if !ok || resp.ErrorCode != 0 {
+			return nil, false
+		}
+		for i := range resp.ApiKeys {
+			if resp.ApiKeys[i].ApiKey == 0 && resp.ApiKeys[i].MaxVersion > cap && resp.ApiKeys[i].MinVersion <= cap {
+				resp.ApiKeys[i].MaxVersion = cap
+				s.Count("adv.produce_capped", 1)
+			}
+		}
+		return [][]byte{encodeResp(ri.corr, resp)}, false
+	}
+}
